@@ -1,6 +1,188 @@
 -------------------------------- MODULE JC16 --------------------------------
-(* C16 — contract of the recorded events of this property (stub).           *)
+(* C16 — byte, hex, word and primitive conversions are lossless, positional *)
+(* and strict.                                                              *)
+(*                                                                          *)
+(* A natural is a BigNat (little-endian base-256 digits without leading     *)
+(* zeros), so "the big-endian byte i of an n-byte value x is                *)
+(* floor(x / 256^(n-1-i)) mod 256" is BytesBE(x, n)[i+1], little-endian     *)
+(* reversed: BytesLE(x, n).  Raw byte strings (fields src, bytes, str, enc) *)
+(* are sequences of byte codes kept as recorded.                            *)
+(*                                                                          *)
+(* Event classes (field op), inputs -> outputs:                             *)
+(*  enc     x, nb, en          -> bytes    n-byte encoding, en = be | le     *)
+(*  dec     src, nb, en        -> y        exactly nb bytes, otherwise the   *)
+(*                                         call must not return a value      *)
+(*  bdec    src, prec, en      -> y, yp | err e   BoxedUint::from_*_slice    *)
+(*  hexdec  src, nb, en, bad   -> y [,yp]  2*nb hex characters; bad = how    *)
+(*                                         this form rejects a non-hex       *)
+(*                                         character (panic | none)          *)
+(*  fmt     x, nb, f, alt      -> str      f = x | X | b, alt = "#" flag     *)
+(*  id      x [,eb] [,mp]      -> y [,yb]  value-preserving conversion       *)
+(*  sext    x, xb, yb [,mp]    -> y        two's complement pattern resized  *)
+(*  trunc   x, xb, yb          -> y        unsigned resize                   *)
+(*  bresize x, xb, tb, w       -> y, yp    boxed widen | shorten             *)
+(*  concat  lo, lb, hi, hb     -> y                                          *)
+(*  split   x, xb, lb          -> lo, hi                                     *)
+(*  ser     x, nb, sf          -> enc      serde, sf = bincode | json | ...  *)
+(*  de      src, nb, sf        -> y | err                                    *)
 EXTENDS BigNat
 
-JudgeC16(e, rg) == FALSE
+Has(e, f) == f \in DOMAIN e
+
+(* value of a raw byte string (leading zeros allowed) *)
+FromBytesBE(s) == FromDigits(s, 256)
+FromBytesLE(s) == FromDigits(Reverse(s), 256)
+Dec(en, s)     == IF en = "be" THEN FromBytesBE(s) ELSE FromBytesLE(s)
+Enc(en, x, n)  == IF en = "be" THEN BytesBE(x, n) ELSE BytesLE(x, n)
+Ceil64(p)      == 64 * ((p + 63) \div 64)
+
+(* hexadecimal alphabet: 0-9 A-F a-f and nothing else *)
+HexVal(c) == IF c >= 48 /\ c <= 57 THEN c - 48
+             ELSE IF c >= 65 /\ c <= 70 THEN c - 55
+             ELSE IF c >= 97 /\ c <= 102 THEN c - 87
+             ELSE -1
+IsHex(s)    == \A i \in 1..Len(s) : HexVal(s[i]) >= 0
+HexBytes(s) == [i \in 1..(Len(s) \div 2) |-> 16 * HexVal(s[2 * i - 1]) + HexVal(s[2 * i])]
+HexChar(d, up) == IF d < 10 THEN 48 + d ELSE (IF up THEN 55 ELSE 87) + d
+HexStr(b, up)  == [i \in 1..(2 * Len(b)) |->
+                     HexChar(IF i % 2 = 1 THEN b[(i + 1) \div 2] \div 16 ELSE b[i \div 2] % 16, up)]
+BinStr(b)      == [i \in 1..(8 * Len(b)) |->
+                     48 + ((b[((i - 1) \div 8) + 1] \div (2 ^ (7 - ((i - 1) % 8)))) % 2)]
+
+--------------------------------------------------------------------------
+JudgeEnc(e) ==
+  /\ e.k = "ok"
+  /\ Len(e.x) <= e.nb
+  /\ e.bytes = Enc(e.en, e.x, e.nb)
+
+JudgeDec(e) ==
+  IF Len(e.src) = e.nb
+    THEN e.k = "ok" /\ e.y = Dec(e.en, e.src)
+    ELSE e.k = "panic"                      \* a function returning Self can reject only by panicking
+
+(* BoxedUint::from_be_slice / from_le_slice: InputSize iff longer than       *)
+(* ceil(prec / 8) bytes, Precision iff the value needs more than prec bits; *)
+(* when both hold either error is accepted.                                 *)
+JudgeBDec(e) ==
+  LET need == (e.prec + 7) \div 8
+      v    == Dec(e.en, e.src)
+      long == Len(e.src) > need
+      big  == ~Fits(v, e.prec)
+  IN IF long \/ big
+       THEN /\ e.k = "err"
+            /\ e.e \in {"InputSize", "Precision"}
+            /\ (e.e = "InputSize" => long)
+            /\ (e.e = "Precision" => big)
+       ELSE /\ e.k = "ok"
+            /\ e.y = v
+            /\ (e.yp = Ceil64(e.prec) \/ (e.prec = 0 /\ e.yp = 64))   \* zero() for prec = 0
+
+JudgeHexDec(e) ==
+  LET chars == Len(e.src)
+  IN IF Has(e, "amb")
+       \* boxed precision not a multiple of the limb size: the documentation does not say which
+       \* size is expected (nb = floor, nb2 = ceiling); any other size must be refused
+       THEN IF chars # 2 * e.nb /\ chars # 2 * e.nb2 THEN e.k = "panic"
+            ELSE /\ e.k \in {"ok", "none", "panic"}
+                 /\ (e.k = "ok" => /\ IsHex(e.src)
+                                   /\ e.y = Dec(e.en, HexBytes(e.src)))
+     ELSE IF chars # 2 * e.nb THEN e.k = "panic"
+     ELSE IF ~IsHex(e.src) THEN e.k = e.bad
+     ELSE /\ e.k = "ok"
+          /\ e.y = Dec(e.en, HexBytes(e.src))
+          /\ (Has(e, "yp") => e.yp = 8 * e.nb)
+
+JudgeFmt(e) ==
+  /\ e.k = "ok"
+  /\ Len(e.x) <= e.nb
+  /\ LET b    == BytesBE(e.x, e.nb)
+         body == IF e.f = "b" THEN BinStr(b) ELSE HexStr(b, e.f = "X")
+         pre  == IF e.alt = 1 THEN (IF e.f = "b" THEN <<48, 98>> ELSE <<48, 120>>) ELSE <<>>
+     IN e.str = pre \o body
+
+(* value-preserving conversions; mp: the target is narrower than the source *)
+(* type and the constructor asserts this, so a panic is acceptable — a      *)
+(* changed value never is                                                    *)
+JudgeId(e) ==
+  \/ (Has(e, "mp") /\ e.k = "panic")
+  \/ /\ e.k = "ok"
+     /\ e.y = e.x
+     /\ (Has(e, "yb") => (Has(e, "eb") /\ e.yb = e.eb))
+
+JudgeSext(e) ==
+  \/ (Has(e, "mp") /\ e.k = "panic")
+  \/ /\ e.k = "ok"
+     /\ e.y = SEnc(SVal(e.x, e.xb), e.yb)    \* sign extension (yb >= xb) or truncation
+
+JudgeTrunc(e) ==
+  /\ e.k = "ok"
+  /\ e.y = Mod2k(e.x, e.yb)
+
+(* a requested precision of 0 bits is represented with one limb by zero_with_precision      *)
+(* (documentation: "rounded up to a multiple of Limb::BITS"): both readings are accepted     *)
+PrecOK(tb, yp) == yp = Ceil64(tb) \/ (tb = 0 /\ yp = 64)
+
+JudgeBResize(e) ==
+  IF e.w = "widen"
+    THEN IF e.tb < e.xb THEN e.k = "panic"
+         ELSE e.k = "ok" /\ PrecOK(e.tb, e.yp) /\ e.y = e.x
+    ELSE IF e.tb > e.xb THEN e.k = "panic"
+         ELSE e.k = "ok" /\ PrecOK(e.tb, e.yp) /\ e.y = Mod2k(e.x, e.yp)
+
+JudgeConcat(e) ==
+  /\ e.k = "ok"
+  /\ e.y = Add(e.lo, Shl(e.hi, e.lb))
+
+JudgeSplit(e) ==
+  /\ e.k = "ok"
+  /\ e.lo = Mod2k(e.x, e.lb)
+  /\ e.hi = Shr(e.x, e.lb)
+
+(* serde: binary formats carry the little-endian byte array with a 64-bit    *)
+(* length prefix (bincode's slice encoding); human-readable formats a        *)
+(* lower-case hex string of the same bytes                                   *)
+Bin(x, nb) == BytesLE(FromInt(nb), 8) \o BytesLE(x, nb)
+
+JudgeSer(e) ==
+  /\ e.k = "ok"
+  /\ Len(e.x) <= e.nb
+  /\ CASE e.sf = "bincode"      -> e.enc = Bin(e.x, e.nb)
+       [] e.sf = "bincode_some" -> e.enc = <<1>> \o Bin(e.x, e.nb)
+       [] e.sf = "bincode_word" -> e.enc = BytesLE(e.x, 8)
+       [] e.sf = "json"         -> e.enc = <<34>> \o HexStr(BytesLE(e.x, e.nb), FALSE) \o <<34>>
+       [] OTHER -> FALSE
+
+JudgeDe(e) ==
+  LET n == Len(e.src)
+  IN CASE e.sf = "bincode" ->
+            IF n = 8 + e.nb /\ FromBytesLE(SubSeq(e.src, 1, 8)) = FromInt(e.nb)
+              THEN e.k = "ok" /\ e.y = FromBytesLE(SubSeq(e.src, 9, n))
+              ELSE e.k = "err"
+       [] e.sf = "bincode_word" ->
+            IF n = 8 THEN e.k = "ok" /\ e.y = FromBytesLE(e.src)
+            ELSE IF n < 8 THEN e.k = "err"
+            ELSE e.k \in {"ok", "err"}
+       [] e.sf = "json" ->
+            IF /\ n = 2 * e.nb + 2
+               /\ e.src[1] = 34 /\ e.src[n] = 34
+               /\ IsHex(SubSeq(e.src, 2, n - 1))
+              THEN e.k = "ok" /\ e.y = FromBytesLE(HexBytes(SubSeq(e.src, 2, n - 1)))
+              ELSE e.k = "err"
+       [] OTHER -> FALSE
+
+JudgeC16(e, rg) ==
+  CASE e.op = "enc"     -> JudgeEnc(e)
+    [] e.op = "dec"     -> JudgeDec(e)
+    [] e.op = "bdec"    -> JudgeBDec(e)
+    [] e.op = "hexdec"  -> JudgeHexDec(e)
+    [] e.op = "fmt"     -> JudgeFmt(e)
+    [] e.op = "id"      -> JudgeId(e)
+    [] e.op = "sext"    -> JudgeSext(e)
+    [] e.op = "trunc"   -> JudgeTrunc(e)
+    [] e.op = "bresize" -> JudgeBResize(e)
+    [] e.op = "concat"  -> JudgeConcat(e)
+    [] e.op = "split"   -> JudgeSplit(e)
+    [] e.op = "ser"     -> JudgeSer(e)
+    [] e.op = "de"      -> JudgeDe(e)
+    [] OTHER -> FALSE
 =============================================================================
